@@ -39,6 +39,8 @@ def step_desc(sess, st):
         flags.append("hostile_sender")
     if op.get("fail") is not None:
         flags.append("fault")
+    if op.get("reentry"):
+        flags.append("reentry")
     return {"k": k, "mk": mk, "tag": st["tag"], "o": st["outcome"], "f": flags}
 
 
